@@ -5,3 +5,15 @@ impl ConvexPolygon {
     #[verifier::external_body]
     pub fn points(&self) -> (r: &[Point2]) ensures r@ == self.pts() { unimplemented!() }
 }
+// parry2d transformation::convex_hull_idx (third party): an UNINTERPRETED function of the point list that reports
+// distinct indices of input points. ASSUMED, not proved here: the indices run counter-clockwise around all points.
+pub uninterp spec fn hull_idx(points: Seq<Point2>) -> Seq<usize>;
+#[verifier::external_body]
+pub fn convex_hull_idx(points: &[Point2]) -> (r: Vec<usize>)
+    ensures
+        r@ == hull_idx(points@),
+        forall|k: int| 0 <= k < r@.len() ==> (#[trigger] r@[k] as int) < points@.len(),
+{ unimplemented!() }
+// std i32::signum
+pub assume_specification [i32::signum] (x: i32) -> (r: i32)
+    ensures r == (if x > 0 { 1i32 } else if x < 0 { -1i32 } else { 0i32 });
